@@ -216,7 +216,7 @@ TEXT["C18"] = {
              "model reads only suffixes that occur in the source, and pins the list of table-valued viper reads — each with its enclosing function and multiplicity (no_password_key_read, model_reads_only_source_literals, "
              "table_reads_are_the_modelled_ones). Tie: configurations of every module class and profile shape, with plain and dotted names (incl. the D20 pair), SASL profiles nested inside one another, passwords of several shapes "
              "(leading $, %…%, surrounding blanks, trailing newline), rendered with two random password assignments, all config routes x all names; each response equals the model's field by "
-             "field; plus a containment TEST (labelled as a test) for the concrete password values, raw and JSON-escaped, on both sides. The handler under test is the one the whole configuration phase of Start leaves (every coordinator's real Configure, defaults merged into the model's configuration) for configurations without dotted keys whose other sections are accepted; every second such configuration has its notifier section supplied from code (map[string]string extras). Two seeded changes of round 8 (C18-m13, C18-m14) are NOT detected — see DESIGN 10.8."),
+             "field; plus a containment TEST (labelled as a test) for the concrete password values, raw and JSON-escaped, on both sides. The handler under test is the one the whole configuration phase of Start leaves (every coordinator's real Configure, defaults merged into the model's configuration) for configurations without dotted keys whose other sections are accepted; every second such configuration has its notifier section supplied from code (map[string]string extras). One seeded change of round 8 (C18-m14: dotted module names re-nested by the configuration phase) is NOT detected — it needs a layered configuration model; see DESIGN 10.8."),
     "note": ("Trusted: Lean kernel + 3 standard axioms; viper modelled as a flattened raw-key-path map with its longest-prefix key resolution (validated differentially incl. dotted configured names; empty tables are leaves); log output and process environment not modelled. The tie is sampled. What is proved in general is the _partial statement (Plain configurations); the D20 leak outside it was repaired."),
 }
 
